@@ -67,6 +67,9 @@ func genWarrior(r *Rng, idx int64, d asm.Dialect, m, maxLen int) ([]mars.Insn, i
 			}
 		}
 		ins.A, ins.B = fv(), fv()
+		if j > 0 && r.Chance(1, 5) {
+			ins = code[j-1] // runs of identical instructions
+		}
 		code[j] = ins
 	}
 	return code, r.Intn(l)
